@@ -582,6 +582,7 @@ def describe(R: Report) -> None:
         "undo inverts the element at len(undo)-len(redo)-1 and records the inverse; redo pops and inverts without recording",
         "every user action registers itself exactly once per top-level use and never when nested or refused",
     ]
+    R.decides += ["each primitive's inverse is the dual edit on the same element with every captured value handed on (shared R01.1-R01.5)"]
     R.not_decided += [
         "that the pointer arithmetic tracks the timeline for all sequences (an induction over list lengths)",
         "equality of tracks state with the predicted timeline state",
